@@ -41,7 +41,7 @@ class Canon18(fingerprint.Canon):
 
 
 class RecWorld(ConnWorld):
-    def __init__(self, supplied_zc: bool = False, hostname: bool = False) -> None:
+    def __init__(self, supplied_zc: bool = False, hostname: bool = False, key_text: str | None = None) -> None:
         import aioesphomeapi.host_resolver as hr
         import aioesphomeapi.zeroconf as zmod
 
@@ -61,8 +61,9 @@ class RecWorld(ConnWorld):
         self.zlog.request_script = answer
         self.hostname = hostname
         try:
+            kw: dict[str, Any] = {} if key_text is None else {"noise": True, "noise_psk_text": key_text}
             super().__init__(client=True, keepalive=1e6, login=True, device_name="dev",
-                             addresses=("dev.local",) if hostname else ("10.0.0.1",))
+                             addresses=("dev.local",) if hostname else ("10.0.0.1",), **kw)
         except BaseException:
             zmod.Zeroconf, zmod.AsyncZeroconf, hr.AsyncServiceInfo = self._saved_zc  # type: ignore[misc]
             raise
@@ -300,14 +301,15 @@ def records(kind: str) -> list[Any]:
 
 
 class RecHarness:
-    def __init__(self, seed: tuple[str, ...], supplied_zc: bool = False, hostname: bool = False) -> None:
+    def __init__(self, seed: tuple[str, ...], supplied_zc: bool = False, hostname: bool = False, key_text: str | None = None) -> None:
         self.seed = list(seed)
         self.supplied = supplied_zc
         self.hostname = hostname
+        self.key_text = key_text
         self.can_fp = True
 
     def fresh(self) -> RecWorld:
-        w = RecWorld(self.supplied, self.hostname)
+        w = RecWorld(self.supplied, self.hostname, self.key_text)
         for lab in self.seed:
             self.apply(w, lab)
         return w
@@ -538,12 +540,18 @@ def factory(seed: tuple[str, ...], supplied: bool = False, hostname: bool = Fals
 # linear runs: the whole back-off table
 # ---------------------------------------------------------------------------------------------------
 def linear_runs(res: Result) -> dict[str, Any]:
-    h = RecHarness(())
+    import base64 as _b64
+
+    h0 = RecHarness(())
+    # a key the user pasted with a trailing no-break space, and one that is not base64 at all: an encryption error at every attempt
+    h_key1 = RecHarness((), key_text=_b64.b64encode(bytes(range(32))).decode() + "\u00a0")
+    h_key2 = RecHarness((), key_text="not a key")
     table: dict[str, list[float]] = {}
     runs = 0
     for cls, steps in (("tcp_refused", ["tcp_refused"]), ("eof_in_handshake", ["tcp_ok", "eof"]), ("bad_pw", ["tcp_ok", "bad_pw"]),
                        ("marker01", ["tcp_ok", "marker01"]), ("handshake_silence", ["tcp_ok", "time"]),
-                       ("mixed", None), ("long_outage", ["tcp_refused"])):
+                       ("mixed", None), ("long_outage", ["tcp_refused"]), ("key_with_nbsp", ["tcp_ok"]), ("key_not_base64", ["tcp_ok"])):
+        h = h_key1 if cls == "key_with_nbsp" else h_key2 if cls == "key_not_base64" else h0
         w = h.fresh()
         try:
             h.apply(w, "rl_start")
@@ -573,7 +581,7 @@ def linear_runs(res: Result) -> dict[str, Any]:
                 gaps.append(round(w.attempts[-1]["t"] - fail_t, 6))
             runs += 1
             table[cls] = gaps if len(gaps) < 20 else gaps[:12] + ["...", len(gaps)]  # type: ignore[list-item]
-            auth = cls in ("bad_pw", "marker01")
+            auth = cls in ("bad_pw", "marker01", "key_with_nbsp", "key_not_base64")
             for i, g in enumerate(gaps, start=1):
                 want = 60.0 if auth else formula(i)
                 if abs(g - want) > EPS:
